@@ -412,7 +412,7 @@ class OutdoorCrops:
     ):
         if self.ADD_OUTDOOR_GROWING:
             if constants_for_params["OG_USE_BETTER_ROTATION"]:
-                crops_produced = np.array([0] * self.NMONTHS)
+                crops_produced = np.zeros(self.NMONTHS)  # float array: no truncation
 
                 hd = (
                     constants_for_params["INITIAL_HARVEST_DURATION_IN_MONTHS"]
